@@ -13,8 +13,13 @@ SMALL_PROTOS = [
 
 # ---------------------------------------------------------------- items
 # ('B', bytes) | ('I'|'ID', kind, data, mask|None) | ('P'|'PD', proto, points)
+# ('FIN',) | ('FINX',)  top-level finalize() / finalize_customized_xml(Ok) in the middle of a program (flag xfin)
+# program keys: items, nofin (writer dropped without finalize), finx (the implicit last finalize goes through
+# finalize_customized_xml), xfin (no implicit finalize: the FIN / FINX items are the top-level finalize calls)
 
 def item_tok(it):
+    if it[0] in ("FIN", "FINX"):
+        return it[0]
     if it[0] == "B":
         return "B:" + it[1].hex()
     if it[0] in ("I", "ID"):
@@ -24,6 +29,8 @@ def item_tok(it):
 
 def parse_item(t):
     p = t.split(":")
+    if p[0] in ("FIN", "FINX"):
+        return (p[0],)
     if p[0] == "B":
         return ("B", bytes.fromhex(p[1]))
     if p[0] in ("I", "ID"):
@@ -33,8 +40,30 @@ def parse_item(t):
     return (p[0], proto, pts)
 
 
+def prog_flags(prog):
+    return [f for f in ("nofin", "finx", "xfin") if prog.get(f)]
+
+
 def prog_text(prog):
-    return ("nofin " if prog.get("nofin") else "") + " ".join(item_tok(i) for i in prog["items"])
+    return " ".join(prog_flags(prog) + [item_tok(i) for i in prog["items"]])
+
+
+def split_outs(prog, outs):
+    """result tokens of a fault-free run -> (tokens up to and including the first successful top-level finalize,
+    tokens of the calls made after it); None when the tokens do not match the program"""
+    pos, committed, before, after = 1, False, outs[:1], []
+    for it in prog["items"]:
+        ntok = 1 if committed else (2 if it[0] in ("I", "ID") and it[3] is not None else 1)
+        toks = outs[pos:pos + ntok]
+        if len(toks) != ntok:
+            return None
+        pos += ntok
+        (after if committed else before).extend(toks)
+        if it[0] in ("FIN", "FINX") and not committed and toks == ["o"]:
+            committed = True
+    rest = outs[pos:]
+    (after if committed else before).extend(rest)
+    return before, after
 
 
 def rand_item(rng, sizes=None, allow_dropped=False):
@@ -54,7 +83,7 @@ def rand_item(rng, sizes=None, allow_dropped=False):
 # ---------------------------------------------------------------- CWLOG
 
 def cw_line(prog, fault="-", chunks="-", flags=(), xml=None):
-    fl = list(flags) + (["nofin"] if prog.get("nofin") else [])
+    fl = list(flags) + prog_flags(prog)
     s = "CWLOG %s %s %s %s" % (fault, chunks, ",".join(fl) if fl else "-", " ".join(item_tok(i) for i in prog["items"]))
     if xml:
         s += " X:" + xml
@@ -76,6 +105,7 @@ def parse_cw(line):
     d["wlog"] = f.get("wlog")
     d["finops"] = int(f["finops"]) if f.get("finops", "-").isdigit() else None
     d["logmark"] = int(f["logmark"]) if f.get("logmark", "-").isdigit() else None
+    d["finlog"] = int(f["finlog"]) if f.get("finlog", "-").isdigit() else None
     d["callops"] = [int(x) for x in f.get("callops", "").split(",") if x]
     d["xml"] = f.get("xml", "")
     d["dev"] = bytes.fromhex(f["dev"]) if "dev" in f else None
